@@ -18,6 +18,7 @@ INVARIANT MedianIsEligibleMember
 INVARIANT MedianIsMiddle
 INVARIANT CylinderSourceIsMiddle
 INVARIANT StorageOrderIrrelevant
+INVARIANT TemperaturesAgree
 INVARIANT OutcomeRule
 PROPERTY CreateLeavesMembers
 CHECK_DEADLOCK FALSE
